@@ -12,6 +12,10 @@ PROP = dict(
         "Comdex.C16.site_TransferFundsForSwapFeeDistribution_perm_invariant",
         "Comdex.C16.swapFeeTotal_closed_form",
         "Comdex.C16.appendInOrder_order_dependent", "Comdex.C16.firstMatch_order_dependent",
+        "Comdex.C16.site_SortOrders_perm_invariant", "Comdex.C16.isSort_goSortStable", "Comdex.C16.sortOrders_amountOnly_order_dependent",
+        "Comdex.C16.table_sortSites_reviewed", "Comdex.C16.table_sortSites_safe", "Comdex.C16.table_sortSites_text",
+        "Comdex.C16.table_floatUses", "Comdex.C16.table_floatUses_size", "Comdex.C16.table_reflectUses", "Comdex.C16.table_syncUses",
+        "Comdex.C16.table_zoneUses", "Comdex.C16.table_spot_entries_vocabulary",
         "Comdex.C16.table_mapRangeSites_proven", "Comdex.C16.table_mapRangeSites_size", "Comdex.C16.table_mapRangeSites_text", "Comdex.C16.table_provenSites_live",
         "Comdex.C16.table_goStatements", "Comdex.C16.table_selectStmts", "Comdex.C16.table_chanOps",
         "Comdex.C16.table_wallClockUses", "Comdex.C16.table_randUses", "Comdex.C16.table_randUses_not_in_keepers",
@@ -19,9 +23,11 @@ PROP = dict(
         "Comdex.C16.table_mapArgsExternal", "Comdex.C16.no_mutable_package_state", "Comdex.C16.table_mutablePackageState_size", "Comdex.C16.table_scan_coverage", "Comdex.C16.table_spot_entries",
     ],
     harness_tests=["TestC16"],
+    monitors=["replay_equal", "results_equal", "site_stable"],
     trusted_base=[KERNEL_TB, HARNESS_TB,
                   "extract/determinism (Go, go/packages + go/types over the working tree): finds every `range` over a map-typed "
-                  "expression, go/select/channel statements, wall-clock, rand, env and unsafe uses in non-test, non-generated files "
+                  "expression, go/select/channel statements, wall-clock, time-zone, rand, env / runtime, unsafe, reflect, sync and floating-point "
+                  "uses and every sort call (comparison text, stability, origin of the input order) in non-test, non-generated files "
                   "of x/…, app/…, types/… (client, simulation, testutil excluded) and classifies each map-range body into a shape; "
                   "regenerated on every run, pinned by spot entries and coverage bounds",
                   "Model/MapLoops.lean: each of the 4 map-range loop bodies hand-written as a fold from the Go source; tied to the "
@@ -30,15 +36,21 @@ PROP = dict(
                   "sort.Strings / sort.Slice are assumed to meet their contract (output is a sorted rearrangement of the input); the "
                   "theorems hold for every function meeting it",
                   "outside the model: Go scheduler and runtime, cosmos-sdk / CometBFT / IAVL / wasmvm code, float arithmetic, 256-bit "
-                  "overflow of the quoteCoinDiff accumulator; the replay comparison (two in-process instances + two OS processes) is a test"],
+                  "overflow of the quoteCoinDiff accumulator; Go's sort algorithms are deterministic functions of their input; the replay "
+                  "comparison (two in-process instances + three OS processes, one with its wall clock shifted by patching time.Now in "
+                  "its own process image and TZ=UTC+14) is a test"],
     assumptions=["a Go map iteration visits every entry exactly once, keys pairwise distinct, in an arbitrary order (language spec)",
                  "values stored in poolLiquidityMap are positive (guard at x/liquidity/keeper/pool.go:731-734, part of the model's hypothesis)",
-                 "the replay workload covers what its generator produces: liquidity (pairs, basic+ranged pools, limit/market/MM orders, "
-                 "cancels, deposits, withdrawals, farming, gauges), vault, locker, lend/borrow, oracle updates, liquidationsV2 + auctionsV2 "
-                 "dutch auctions, rewards epochs; governance-only configuration is written through keeper entry points inside blocks"],
+                 "orders inside one matching batch have pairwise distinct (kind, id) (hypothesis of site_SortOrders_perm_invariant)",
+                 "the replay workload covers what its generator produces: every /comdex.* message type (distribution in the stats), liquidity, "
+                 "vault incl. stable-mint, locker, lend, oracle updates and outages, kill switch, ESM shutdown and redemption, liquidationsV2 + "
+                 "auctionsV2 dutch auctions, v1 keeper liquidations, rewards epochs incl. chain halts, external reward programmes; governance-only "
+                 "configuration is written through keeper entry points inside blocks"],
     rule="each det.block case is one block of a generated workload executed through BeginBlock / signed DeliverTx / EndBlock / Commit on "
-         "two fresh in-process instances and in two fresh OS processes from one fixed genesis; compared: sha256 over an ordered dump of "
-         "every IAVL store + all bank balances + app hash + tx and EndBlock results. Each det.site case is one real function / block hook "
+         "two fresh in-process instances and in three fresh OS processes (one with a shifted wall clock and another time zone) from one "
+         "fixed genesis; compared: sha256 over an ordered dump of every IAVL store + all bank balances + app hash + validator updates "
+         "(det.block / replay_equal) and, separately, over the transaction results incl. event attribute order (det.results / "
+         "results_equal). Each det.site case is one real function / block hook "
          "run many times in-process on identical inputs. distinct = distinct trace text, non-trivial = the block had a successful tx",
 )
 
@@ -52,8 +64,11 @@ META = dict(
          "keyed independent updates commute, panics included; checked sum of positive decimals panics iff the total overflows). "
          "Obligations over the regenerated table: these are all the map ranges (by file, function, body shape), no go/select/channel "
          "statements, wall-clock and math/rand only in reviewed test/simulation helpers that nothing else calls, no env/unsafe uses, "
-         "maps reach external code only from app wiring. Test: a generated multi-module workload replayed on 2 in-process instances "
-         "and 2 OS processes gives identical per-block hashes; hooks repeated in-process give one result.",
+         "maps reach external code only from app wiring; every sort call has a deterministic input order or a total comparison "
+         "(SortOrders: HasPriority proved a strict total order); time zone, environment, reflect, sync and floating point only at "
+         "reviewed pinned places. Test: a generated workload delivering every comdex message type, with chain halts, oracle outages and "
+         "an emergency shutdown, replayed on 2 in-process instances and 3 OS processes (one with a wall clock shifted by 137 days and "
+         "TZ UTC+14) gives identical per-block state hashes and identical transaction results; hooks repeated in-process give one result.",
     note="Partial: the scheduler, Go runtime, SDK/CometBFT/IAVL/wasm internals and float arithmetic are outside the model; sort "
          "functions are trusted to meet their contract; the replay comparison is a test, not a proof.",
 )
